@@ -49,6 +49,8 @@ def conditions(tier):
         cs.append(C(HF, "Tupl_Hex_Rooms", "h_text", h, w, l=3, t=2 * T))
     cs.append(C(HF, "Grid_SpacesHex", "h_text", 1, 2, l=3, t=2 * T, VERIF_PRIOR="2,2,1i", key="h_text-after-other-size:Grid_SpacesHex"))
     cs.append(C(HF, "Grid_SpacesHex", "h_value_grid", 1, 3, t=T, VERIF_PRIOR="2,2,1i", key="h_value-after-other-size:Grid_SpacesHex"))
+    if q:     # a board wider than tall for the per-room values (row-major order of rooms depends on the width)
+        cs.append(C(HF, "ValuedRooms_hex", "h_rooms_order", 2, 3, l=2, t=5 * T, VERIF_NPERM=4))
     for (h, w) in ([(2, 2)] if q else [(2, 2), (2, 3), (1, 3)]):
         cs.append(C(HF, "Rooms", "h_rooms_order", h, w, l=2, t=4 * T, VERIF_NPERM=4 if q else 8))
         cs.append(C(HF, "ValuedRooms_hex", "h_rooms_order", h, w, l=2, t=4 * T, VERIF_NPERM=4 if q else 8))
